@@ -898,7 +898,111 @@ def gen_tls(r, n, tier):
                 yield c
 
 
+ALL_LEVELS = [f"d{a}{f}{p}" for a in range(4) for f in range(3) for p in range(3)]
+
+
+def gen_srv_fuzz(r, n, tier):
+    """C07: grammar-aware mutations of valid traffic plus raw random bytes, all decode levels,
+    followed by a shutdown command (must still be honoured)"""
+    for i in range(n):
+        rtu_mode = r.chance(1, 2)
+        fr = "r" if rtu_mode else "t"
+        units, ids, hints = random_units(r, rtu_mode)
+        level = ALL_LEVELS[i % len(ALL_LEVELS)] if r.chance(2, 3) else r.pick(["d000", "d322"])
+        k = r.below(5)
+        if k == 0:
+            data = r.bytes(r.rng(1, 600))
+        else:
+            frames = []
+            for _ in range(r.rng(1, 10)):
+                unit = r.pick(ids) if ids and r.chance(2, 3) else r.below(256)
+                pdu = valid_request(r) if r.chance(1, 2) else malformed_request(r)
+                if rtu_mode:
+                    f = rtu(unit, pdu, bad_crc=r.chance(1, 10))
+                else:
+                    f = mbap(r.below(65536), unit, pdu,
+                             proto=0 if r.chance(9, 10) else r.below(65536),
+                             length=None if r.chance(9, 10) else r.pick([0, 1, 254, 255, 256, 65535, len(pdu), len(pdu) + 2]))
+                if r.chance(1, 6):
+                    j = r.below(len(f))
+                    f = f[:j] + bytes([f[j] ^ (1 << r.below(8))]) + f[j + 1:]
+                if r.chance(1, 10):
+                    f = f[:r.below(len(f) + 1)]
+                frames.append(f)
+            data = b"".join(frames)
+        steps = [hx(c) for c in chunkings(r, data)]
+        if r.chance(1, 4) and steps:
+            steps.insert(r.below(len(steps) + 1), "!" + r.pick(ALL_LEVELS))
+        steps.append("!s")
+        auth = auth_tok(r) if r.chance(1, 5) else "-"
+        yield f"srv {fr} {level} {auth} {units} {','.join(steps)}"
+
+
+def gen_rdr_fuzz(r, n, tier):
+    for i in range(n):
+        kind = r.pick(["t", "q", "p"])
+        level = ALL_LEVELS[i % len(ALL_LEVELS)]
+        if r.chance(1, 3):
+            data = r.bytes(r.rng(1, 700))
+        elif kind == "t":
+            data = mbap_stream(r, r.rng(1, 20))
+        else:
+            data = b"".join(rtu_frames(r, kind, r.rng(1, 10)))
+            if r.chance(1, 2) and data:
+                j = r.below(len(data))
+                data = data[:j] + bytes([data[j] ^ (1 << r.below(8))]) + data[j + 1:]
+        yield f"rdr {kind} {level} {chunks_tok(chunkings(r, data))}"
+
+
+def decode_variants(r, case):
+    """C20: the same case at the lowest level, the highest level, a random level, and with
+    level changes injected into the script"""
+    tok = case.split(" ")
+    if tok[0] == "srv":
+        di, si, mk = 2, 5, (lambda l: "!" + l)
+    elif tok[0] == "cl":
+        di, si, mk = 2, 5, (lambda l: "L" + l)
+    elif tok[0] == "rdr":
+        di, si, mk = 2, None, None
+    else:
+        return [case]
+    out = []
+    for lvl in ("d000", "d322", r.pick(ALL_LEVELS)):
+        t = list(tok)
+        t[di] = lvl
+        out.append(" ".join(t))
+    if si is not None and tok[si] != "-":
+        steps = tok[si].split(",")
+        for _ in range(2):
+            st = list(steps)
+            for _ in range(r.rng(1, 3)):
+                st.insert(r.below(len(st) + 1), mk(r.pick(ALL_LEVELS)))
+            t = list(tok)
+            t[di] = r.pick(["d000", "d322"])
+            t[si] = ",".join(st)
+            out.append(" ".join(t))
+    return out
+
+
+def gen_dec_srv(r, n, tier):
+    base = list(gen_srv(Rng(r.next(), "a"), n, "quick", False))[-n:] + list(gen_srv(Rng(r.next(), "b"), n, "quick", True))[-n:]
+    for c in base:
+        for v in decode_variants(r, c):
+            yield v
+
+
+def gen_dec_rdr(r, n, tier):
+    base = list(gen_rdr_mbap(Rng(r.next(), "a"), n, "quick"))[-n:] + list(gen_rdr_rtu(Rng(r.next(), "b"), n, "quick"))[-n:]
+    for c in base:
+        for v in decode_variants(r, c):
+            yield v
+
+
 SUITES = {
+    "srv_fuzz": gen_srv_fuzz,
+    "rdr_fuzz": gen_rdr_fuzz,
+    "dec_srv": gen_dec_srv,
+    "dec_rdr": gen_dec_rdr,
     "tls": gen_tls,
     "net": gen_net,
     "life": gen_life,
